@@ -210,7 +210,37 @@ def check_path(pts_list, v, k, th, t):
     return None
 
 
+def check_ctor(seed):
+    """the constructors give a fresh, independent map every time: build one, change it in place with a composer, build another with the
+    same arguments — it must be the map the first one was before it was changed (and a different object)"""
+    import random
+    rng = random.Random(seed)
+    th = rng.choice([math.pi / 3, 0.5, -1.25, math.pi, rng.uniform(-3, 3)])
+    v = Point(float(rng.randint(-9, 9)), float(rng.randint(-9, 9)))
+    k = rng.choice([2.0, -1.0, 0.5, 3.0])
+    ctors = [("rotation(%r)" % th, lambda: AffineTransformation.rotation(th)),
+             ("translation(%r)" % ((v.x, v.y),), lambda: AffineTransformation.translation(Point(v.x, v.y))),
+             ("scaling(%r)" % k, lambda: AffineTransformation.scaling(k)),
+             ("reflection()", lambda: AffineTransformation.reflection()),
+             ("AffineTransformation()", lambda: AffineTransformation())]
+    muts = [lambda m: m.translate(Point(10.0, 20.0)), lambda m: m.scale(2.0, 3.0), lambda m: m.rotate(0.75), lambda m: m.invert(),
+            lambda m: m.reflect()]
+    for name, mk in ctors:
+        m1 = mk()
+        snap = [list(r) for r in m1.matrix]
+        rng.choice(muts)(m1)
+        rng.choice(muts)(m1)
+        m2 = mk()
+        if m2 is m1:
+            return "%s returned the same object twice" % name
+        if [list(r) for r in m2.matrix] != snap:
+            return "%s gives %r after an earlier result of the same call was changed in place; it gave %r the first time" % (name, m2.matrix, snap)
+    return None
+
+
 def run_one(kind, inp):
+    if kind == "ctor":
+        return check_ctor(inp["seed"])
     if kind == "ops":
         return check_case(inp["ops"], [tuple(p) for p in inp["pts"]], inp["t"])
     if kind == "rotate":
@@ -243,6 +273,9 @@ def search(ctx, budget):
                 if key not in seen:
                     seen.add(key)
                     nontriv += 1
+        elif r == 6 and i % 40 == 6:
+            inp = {"seed": rng.randrange(1 << 30)}
+            kind = "ctor"
         elif r < 8:
             fam = rng.choice(["int", "float", "grid"])
             p = (oc.rand_coord(rng, fam), oc.rand_coord(rng, fam))
